@@ -618,6 +618,12 @@ class Engine:
                 if not self.feasible(st, a[0] >= 0): return -a[0]
             return z3.If(a[0] >= 0, a[0], -a[0])
         if name == 'iabs': return z3.If(args[0] >= 0, args[0], -args[0])
+        if name in ('llround', 'lround'):
+            # nearest integer, halves away from zero; the value must be representable in the (64-bit) result type
+            x_ = a[0]
+            r_ = z3.If(x_ >= 0, z3.ToInt(x_ + z3.RealVal('1/2')), -z3.ToInt(-x_ + z3.RealVal('1/2')))
+            self.oblige(st, z3.And(r_ >= -2 ** 63, r_ <= 2 ** 63 - 1), 'conversion', '%s: the rounded value fits the integer result type' % name)
+            return r_
         if name in ('isnan', 'isinf'): return z3.BoolVal(False)      # A1
         if name == 'isfinite': return z3.BoolVal(True)
         if name == 'pow':
@@ -1965,6 +1971,10 @@ class Verifier(Engine):
     def exec_loop(self, L, st):
         ls = self.cur.loops.get(L.ordinal) if self.cur is not None else None
         name = '%sloop%d' % (self.prefix, L.ordinal)
+        if getattr(self, 'fallback_unroll', None):
+            # bounded fallback (the loop clauses of the contract do not fit the code any more): every loop is unrolled a few times,
+            # longer runs are cut off; whatever fails on the explored paths is a genuine counterexample, passing proves nothing
+            return self.unroll_loop(L, st, self.fallback_unroll)
         if ls is None:
             n = self.cur.unroll.get(L.ordinal) if self.cur is not None else None
             if n is None and self.cur is not None and self.cur.options.get('auto_unroll'):
@@ -2108,7 +2118,7 @@ class Verifier(Engine):
                 if self.feasible(ex, z3.Not(c)): out.append((ex, 'normal', None))
                 if it == n:
                     b = s0.clone(); b.assume(c)
-                    if self.cur.options.get('unwinding_assertions', True):
+                    if self.cur.options.get('unwinding_assertions', True) and not getattr(self, 'fallback_unroll', None):
                         self.oblige(b, z3.BoolVal(False), 'loop%d.unwind' % L.ordinal, 'loop finishes within %d iterations' % n)
                     continue
                 b = s0.clone(); b.assume(c)
@@ -2201,9 +2211,14 @@ class Verifier(Engine):
                 p.scope = None
                 if rv is not None and f.ret_ref: self.ev(rv, p)      # the returned reference designates an element inside the object
                 if rv is not None and not f.ret_ref: p.env['result'] = rv
-                for u in fs.uses_post: self.use_lemma(u, p)
+                fb = getattr(self, 'fallback_unroll', None)
+                if not fb:
+                    for u in fs.uses_post: self.use_lemma(u, p)
+                allowed_ = set(pn for pn, pt, br in f.params) | set(gn for gt, gn in fs.ghosts) | set(gn for gt, gn in fs.globals) | set(gn for gt, gn in fs.ghost_state) | {'result', 'self'} | set(cn for ct, cn in fs.captures)
                 for cl in fs.ensures:
                     if cl.engines and 'E2' not in cl.engines: continue
+                    if fb and not (set(SP.names_in(cl.expr)) <= allowed_ | set(self.db.specfns) | set(cb_['uf'] for cb_ in fs.callbacks.values())):
+                        continue      # bounded fallback: clauses that mention locals may no longer mean what they meant
                     self.check_clause(cl, p, 'ensures')
                 for sn, invs in fs.static_invs.items():
                     live = [k_ for k_ in p.env if k_ == sn or k_.startswith(sn + '__')]
@@ -2211,7 +2226,7 @@ class Verifier(Engine):
                     for cl in invs: self.check_clause(cl, p, 'static.%s.kept' % sn, what='kept at return: ')
                 self.check_frame(fs, f, p)
             missing = [k for k in fs.loops if k not in self.loops_seen]
-            if missing and mode == 'accept':
+            if missing and mode == 'accept' and not getattr(self, 'fallback_unroll', None):
                 raise E2Error('%s: contract mentions loop(s) %s that were not reached/exist' % (f.qual, missing))
             info['modes'][mode] = {'paths': len(paths), 'returns': nret, 'exits': nexit, 'obligations': len(self.obligations) - n_before, 'exit_sites': self.exit_sites}
         return info
